@@ -68,9 +68,18 @@ def gen_case(rng, max_m=1000, small=False, weaver=False, large=False):
             x, xc = mixed
     y, yc = gen.gen_y(rng, m)
     idx = _pick_fixed(rng, m, hug_ends=True if weaver else None, many=many)
+    force_top = None
+    if m > 130 and not large and not weaver and rng.integers(0, 10) == 0:
+        # the last fixed point exactly at a narrow index type's maximum (int8: 127, uint8: 255)
+        top = 127 if (m <= 256 or rng.integers(0, 2)) else 255
+        keep = [i for i in idx if i <= top - 2]
+        if keep and top < m:
+            idx, force_top = keep + [top], top
     K = len(idx)
     weaver = weaver and idx[0] == 0 and idx[-1] == m - 1
     mode = ["search", "positions", "indices"][int(rng.integers(0, 3))]
+    if force_top is not None:
+        mode = "indices"
     strategy = ["closest", "lower", "higher"][int(rng.integers(0, 3))]
     if large and rng.integers(0, 2):
         mode, strategy = ("search", "closest") if rng.integers(0, 2) else ("positions", strategy)
@@ -168,10 +177,12 @@ def gen_case(rng, max_m=1000, small=False, weaver=False, large=False):
         alpha_arg = at(alpha)
         alpha = float(alpha_arg)
     idx_dtype = None
-    if mode == "indices" and rng.integers(0, 4) == 0:
+    if force_top is not None:
+        idx_dtype = "int8" if force_top == 127 else "uint8"
+    if idx_dtype is None and mode == "indices" and rng.integers(0, 4) == 0:
         # fixed-point indices held in a compact integer array (the result of np.flatnonzero(...).astype(...)): every index
-        # fits the type with room to spare, the LENGTH of the series need not
-        fits = [t for t in (np.uint8, np.int8, np.int16, np.uint16, np.int32, np.uint32, np.uint64) if max(idx) < np.iinfo(t).max]
+        # fits the type (the largest may be the type's maximum), the LENGTH of the series need not
+        fits = [t for t in (np.uint8, np.int8, np.int16, np.uint16, np.int32, np.uint32, np.uint64) if max(idx) <= np.iinfo(t).max]
         if fits:
             idx_dtype = np.dtype(fits[int(rng.integers(0, len(fits)))]).name
     both = None
